@@ -134,6 +134,11 @@ void SocketServer::startLoop()
 			for (int i = 0; i < n; i++)
 			{
 				Socket client = _sockets.activeAt(i).accept();
+				if (client.handle() < 0) // accept() failed (e.g. out of descriptors): there is no connection to serve
+				{
+					sleep(0.01);
+					continue;
+				}
 #ifdef ASL_VERIF
 				asl_verif_point(20, this);
 #endif
